@@ -2,7 +2,11 @@ package poolsim
 
 import (
 	"bytes"
+	"encoding/json"
 	"fmt"
+	"os"
+	"path/filepath"
+	"sort"
 
 	"go.sia.tech/core/consensus"
 	"go.sia.tech/core/types"
@@ -183,4 +187,23 @@ func (w *World) ValidatePool(n *chaingen.Node, v1 []types.Transaction, v2 []type
 		}
 	}
 	return -1, nil
+}
+
+// Corpus loads the minimised earlier failures of a property (/verif/corpus/<prop>/*.json, the
+// replay files written by Result.Fail), to be run first.
+func Corpus(prop string) []Case {
+	files, _ := filepath.Glob("/verif/corpus/" + prop + "/*.json")
+	sort.Strings(files)
+	var out []Case
+	for _, f := range files {
+		var rp struct {
+			Replay struct {
+				Case Case `json:"case"`
+			} `json:"replay"`
+		}
+		if b, err := os.ReadFile(f); err == nil && json.Unmarshal(b, &rp) == nil && len(rp.Replay.Case.Plan) > 0 {
+			out = append(out, rp.Replay.Case)
+		}
+	}
+	return out
 }
